@@ -9,7 +9,7 @@ hook_commits = [l.split()[0] for l in hooks if l.split(" ", 1)[1].startswith("ve
 GO = "GOFLAGS=-mod=mod GOPROXY=off GOSUMDB=off GOTOOLCHAIN=local"
 m = {
  "version": 1,
- "setup_cmd": "cd /verif/harness && %s go build ./... && %s go test -tags verif -vet=off -count=1 -run '^$' ./... >/dev/null" % (GO, GO),
+ "setup_cmd": "cd /verif/harness && %s go build ./... && %s go test -tags verif -vet=off -count=1 -run '^$' ./... >/dev/null && %s go test -race -tags verif -vet=off -count=1 -run '^$' ./props/c09 ./props/c10 ./props/c11 >/dev/null" % (GO, GO, GO),
  "hooks": {
   "guard": "verif",
   "enable": "go test -c -tags verif from /verif/harness, whose go.mod replaces github.com/jig/lisp by /repo (the working tree)",
